@@ -26,6 +26,7 @@ type Solver struct {
 	log     io.Writer
 	Queries int
 	Errors  []string
+	LastReason string
 	Time    time.Duration
 }
 
@@ -206,6 +207,10 @@ func (s *Solver) Check() string {
 			s.Errors = append(s.Errors, line)
 			continue
 		}
+	}
+	if res == "unknown" && len(s.Errors) == 0 && s.cmd != nil {
+		s.send("(get-info :reason-unknown)")
+		s.LastReason = strings.TrimSpace(s.readSexp())
 	}
 	d := time.Since(t0)
 	s.Queries++
